@@ -193,6 +193,28 @@ CHECKS["C17"] = {
     "technique": "static analysis: typestate via reaching definitions, whitelist of accumulator invariants in normal form, structural save/load rules",
 }
 
+CHECKS["C03"] = {
+    "level": "other",
+    "text": ("Decides the input/output dtype discipline of the short-integration computer with a NEP 50 dtype lattice (every buffer "
+             "reaching the forward transform is float64/complex128; results carry the first chunk's dtype; non-floating input is "
+             "refused first), that forward/inverse transforms are matching pairs under one predicate with explicit lengths, uniform "
+             "filter / energy-impulse preparation, window geometry, log floor, and the finalize frame-count closed form. Does NOT "
+             "decide numerical equality with the convolution definition; the total frame count is a function of run-time counters."),
+    "design_ref": "DESIGN.md §3 C03",
+    "note": NOTE_COMMON + "Bank impulse responses are float64/complex128 by their documented contract.",
+    "technique": "static analysis: dtype lattice (NEP 50), sibling agreement of transform branches, structural preparation rules, closed-form frame count",
+}
+CHECKS["C11"] = {
+    "level": "other",
+    "text": ("Decides agreement of the four force_as tables with the documented names, error types on every path, stream guards "
+             "before any reader, the final-cast form of each per-container reader (dtype never handed to a rescaling decoder), keyed "
+             "defaults, wave reshape, and that wds_read_signal cannot raise. Does NOT decide bit-identity through third-party "
+             "decoders (soundfile, h5py, torch, scipy)."),
+    "design_ref": "DESIGN.md §3 C11",
+    "note": NOTE_COMMON,
+    "technique": "static analysis: literal-table agreement, CFG guard dominance, sibling rule on reader return forms and decoder-dtype provenance",
+}
+
 _PENDING = "check not built yet in this session (static-analysis clauses planned in DESIGN.md §3)"
 NOT_APPLICABLE = {("C%02d" % i): _PENDING for i in range(1, 21) if ("C%02d" % i) not in CHECKS}
 
